@@ -463,7 +463,11 @@ static json gen_histnew() {
     double f = std::ldexp(1.0, -pick<int>({20, 40, 62, 70, 90, 200}));
     for (auto &vw : vals) vw[1] = vw[1].get<double>() * f;
   }
-  return json{{"min", mn}, {"max", mx}, {"nbins", n}, {"periodic", periodic}, {"values", vals}, {"normalize", rbool(40)},
+  // Normalize is only defined for non-negative weights: a case that asks for it gets them
+  const bool normalize = rbool(40);
+  if (normalize)
+    for (auto &vw : vals) vw[1] = std::fabs(vw[1].get<double>());
+  return json{{"min", mn}, {"max", mx}, {"nbins", n}, {"periodic", periodic}, {"values", vals}, {"normalize", normalize},
               {"history", rbool(30) ? ri(1, 2) : 0}, {"via_range", rbool(30)}};
 }
 
